@@ -1,0 +1,83 @@
+// Verification hooks (feature `verif-hooks`): a public, cloneable handle on the crate-private
+// `ReplicationFetcher` with views of its queues and an `age` operation that moves every stored
+// deadline into the past. Child module of `replication_fetcher`.
+
+use super::*;
+
+pub struct VerifFetcher(ReplicationFetcher);
+
+impl Clone for VerifFetcher {
+    fn clone(&self) -> Self {
+        VerifFetcher(ReplicationFetcher {
+            self_peer_id: self.0.self_peer_id,
+            to_be_fetched: self.0.to_be_fetched.clone(),
+            on_going_fetches: self.0.on_going_fetches.clone(),
+            event_sender: self.0.event_sender.clone(),
+            distance_range: self.0.distance_range,
+            farthest_acceptable_distance: self.0.farthest_acceptable_distance,
+        })
+    }
+}
+
+impl VerifFetcher {
+    pub fn new(self_peer_id: PeerId, event_sender: mpsc::Sender<NetworkEvent>) -> Self {
+        VerifFetcher(ReplicationFetcher::new(self_peer_id, event_sender))
+    }
+    pub fn set_replication_distance_range(&mut self, distance_range: U256) {
+        self.0.set_replication_distance_range(distance_range)
+    }
+    pub fn add_keys(
+        &mut self,
+        holder: PeerId,
+        incoming_keys: Vec<(NetworkAddress, RecordType)>,
+        locally_stored_keys: &HashMap<RecordKey, (NetworkAddress, RecordType)>,
+    ) -> Vec<(PeerId, RecordKey)> {
+        self.0.add_keys(holder, incoming_keys, locally_stored_keys)
+    }
+    pub fn set_farthest_on_full(&mut self, farthest_in: Option<RecordKey>) {
+        self.0.set_farthest_on_full(farthest_in)
+    }
+    pub fn notify_about_new_put(&mut self, new_put: RecordKey, record_type: RecordType) -> Vec<(PeerId, RecordKey)> {
+        self.0.notify_about_new_put(new_put, record_type)
+    }
+    pub fn notify_fetch_early_completed(&mut self, key_in: RecordKey, record_type: RecordType) -> Vec<(PeerId, RecordKey)> {
+        self.0.notify_fetch_early_completed(key_in, record_type)
+    }
+    pub fn next_keys_to_fetch(&mut self) -> Vec<(PeerId, RecordKey)> {
+        self.0.next_keys_to_fetch()
+    }
+    /// Pending entries: (key, type, holder, deadline already passed?)
+    pub fn to_be_fetched(&self) -> Vec<(RecordKey, RecordType, PeerId, bool)> {
+        let now = Instant::now();
+        self.0.to_be_fetched.iter().map(|((k, t, h), d)| (k.clone(), t.clone(), *h, *d <= now)).collect()
+    }
+    /// In-flight entries: (key, type, holder, deadline already passed?)
+    pub fn on_going_fetches(&self) -> Vec<(RecordKey, RecordType, PeerId, bool)> {
+        let now = Instant::now();
+        self.0.on_going_fetches.iter().map(|((k, t), (h, d))| (k.clone(), t.clone(), *h, *d < now)).collect()
+    }
+    pub fn distance_range(&self) -> Option<U256> {
+        self.0.distance_range
+    }
+    pub fn farthest_acceptable_distance(&self) -> Option<Distance> {
+        self.0.farthest_acceptable_distance
+    }
+    /// As if `by` had passed: every stored deadline moves `by` into the past.
+    pub fn age(&mut self, by: Duration) {
+        for d in self.0.to_be_fetched.values_mut() {
+            if let Some(n) = d.checked_sub(by) {
+                *d = n;
+            }
+        }
+        for (_, d) in self.0.on_going_fetches.values_mut() {
+            if let Some(n) = d.checked_sub(by) {
+                *d = n;
+            }
+        }
+    }
+}
+
+/// (queued, in flight)
+pub(crate) fn fetcher_counts(f: &ReplicationFetcher) -> (usize, usize) {
+    (f.to_be_fetched.len(), f.on_going_fetches.len())
+}
